@@ -19,7 +19,7 @@ package grpchan
 //@   ensures[C15] registered: has(m, old(desc.ServiceName)) && m[old(desc.ServiceName)].desc == desc && m[old(desc.ServiceName)].handler == h
 //@   ensures[C15] was_not_registered_before: !old(has(m, desc.ServiceName)) && lastresult("reflect.Type.Implements")
 //@   ensures[C15] others_untouched: forall k string :: k != old(desc.ServiceName) ==> has(m, k) == old(has(m, k)) && m[k] == old(m[k])
-//@   assert_call[C15] reflect.Type.Implements : handler_type_against_service_interface: arg0 == lastresult("reflect.TypeOf") && arg1 == lastresult("reflect.Type.Elem")
+//@   assert_call[C15] reflect.Type.Implements : handler_type_against_service_interface: arg0 == rtype_of(h) && arg1 == rtype_elem(rtype_of(desc.HandlerType))
 //@   modifies mapof(m)
 //
 //@ func (HandlerMap).ForEach
